@@ -126,6 +126,29 @@ def run_history(e, prog, ctor, ops):
     if ctor == 'new':
         b = e.call_fn(bfn(prog, 'new'), [vc, afp], {})
         want_afp = afp
+    elif ctor == 'unix':
+        # both 108-byte paths: constant fill with three symbolic bytes each (first, middle, last position)
+        sv = [z3.Int('us%d' % k) for k in range(3)] + [z3.Int('ud%d' % k) for k in range(3)]
+        e.assume(z3.And([z3.And(o >= 0, o <= 255) for o in sv]))
+        s = [0x41] * 108
+        d = [0x42] * 108
+        s[0], s[53], s[107] = sv[0], sv[1], sv[2]
+        d[0], d[54], d[107] = sv[3], sv[4], sv[5]
+        src = prog.src('src/v2/model.rs')
+        mm = re.search(r'pub struct Unix \{(.*?)\}', src, re.S)
+        order = re.findall(r'pub (\w+):', mm.group(1))
+        vals = {'source': Tuple(list(s)), 'destination': Tuple(list(d))}
+        ux = Struct('v2::model::Unix', {})
+        ux.fields = {i: vals[n] for i, n in enumerate(order)}
+        ux.names = {n: i for i, n in enumerate(order)}
+        addrs = Enum('v2::model::Addresses', 'Unix', [ux])
+        k = e.choose(3)
+        proto = Enum('v2::model::Protocol', ['Unspecified', 'Stream', 'Datagram'][k], [])
+        b = e.call_fn(bfn(prog, 'with_addresses'), [vc, proto, addrs], {'T': 'v2::model::Addresses'})
+        want_afp = 0x30 + k
+        for o in s + d:
+            g.exp.push_bytes([o])
+        g.count = 216
     else:
         octs = [z3.Int('ab%d' % k) for k in range(12)]
         e.assume(z3.And([z3.And(o >= 0, o <= 255) for o in octs]))
@@ -240,7 +263,9 @@ def history_spec(ctor, ops, m, proto_k):
     def val(name):
         v = m.eval(z3.Int(name), model_completion=True)
         return v.as_long()
-    if ctor == 'new':
+    if ctor == 'unix':
+        parts = ['unix:%d:%d:%s' % (val('vc'), proto_k, ''.join('%02x' % val(n) for n in ('us0', 'us1', 'us2', 'ud0', 'ud1', 'ud2')))]
+    elif ctor == 'new':
         parts = ['new:%d:%d' % (val('vc'), val('afp'))]
     else:
         parts = ['ipv4:%d:%d:%s' % (val('vc'), proto_k, ''.join('%02x' % val('ab%d' % k) for k in range(12)))]
@@ -275,7 +300,7 @@ def builder_modular(prog, props, kmax, label):
     for k in range(0, kmax + 1):
         for ops in itertools.product(OPS, repeat=k):
             # reserve / set_none as the only differences from a shorter history add nothing at k = kmax: keep all for k < kmax
-            for ctor in ('new', 'ipv4'):
+            for ctor in (('new', 'ipv4', 'unix') if k <= 1 else ('new', 'ipv4')):
                 hist += 1
                 n, nq, st, viol = check_history2(prog, ctor, list(ops), props)
                 npaths += n
@@ -310,7 +335,7 @@ def check_history2(prog, ctor, ops, props):
     for sc, items, outc, notes in res:
         pc = [c for _, c in items]
         proto_k = 0
-        if ctor == 'ipv4':
+        if ctor in ('ipv4', 'unix'):
             ks = [d for d in sc if isinstance(d, int) and not isinstance(d, bool)]
             proto_k = ks[0] if ks else 0
         bad = history_badness(outc, notes)
